@@ -9,8 +9,10 @@ EVERY environment `cfg.env : Nat → List (backend × lock key)` (which foreign 
 transactions — release their locks just before which command of this task: before the block's first command,
 between two attempts of a blocked `_lock_updates`, during commit / rollback, never), every duration `cfg.stepDt`
 of a lock-step, every mode / timeout / retry count / set-iteration order (`cfg`), every body (any length, any
-number of backends and keys, single- and multi-key writes, ending normally or by raising) and every starting
-world outside a transaction (in particular: any set of lock keys held by foreign owners).
+number of backends and keys, single- and multi-key writes, TTL changes (`expire`), counters and conditional writes
+(`incr` with a ttl, `set(exist=…)` — read-modify-writes whose own backend read comes after the lock was taken and can
+fail), ending normally or by raising) and every starting world outside a transaction (in particular: any set of lock
+keys held by foreign owners, any store content with any deadlines).
 Property theorems only; helper lemmas live in `Lemmas/TxFault*.lean`, the model in `Model/TxFault.lean`.
 -/
 namespace CashewsVerif.Props.C16
@@ -185,7 +187,7 @@ theorem failed_body_applies_nothing (cfg : Cfg) (body : List BodyCmd) (w : FWorl
     (hb : (runBody cfg body (entered w)).1.isOk = false) :
     (runBlock cfg body w).2.data = w.data := by
   rw [runBlock_world cfg body w h, hb]
-  exact ((aexit_exc_RBody cfg _).2).trans (runBody_RBody cfg body (entered w)).2
+  exact ((aexit_exc_RBody cfg _).2.1).trans (runBody_RBody cfg body (entered w)).2.1
 
 /-- **A failure inside the body applies none of the transaction's writes**: if any backend command issued by
 the body is made to fail (index between the block's first command and the body's last), the data of every
@@ -194,6 +196,73 @@ theorem body_fault_applies_nothing (cfg : Cfg) (body : List BodyCmd) (w : FWorld
     (hf : ∃ i, w.counter ≤ i ∧ i < (runBody cfg body (entered w)).2.counter ∧ cfg.fails i = true) :
     (runBlock cfg body w).2.data = w.data := by
   apply failed_body_applies_nothing cfg body w h
+  cases hok : (runBody cfg body (entered w)).1.isOk with
+  | false => rfl
+  | true =>
+    obtain ⟨i, h1, h2, h3⟩ := hf
+    have := (runBody_Clean cfg body (entered w)).2 hok i h1 h2
+    rw [h3] at this
+    cases this
+
+/-- a read (`get`, `exists`) or a lock command (`set_lock`, `unlock`): the commands that cannot touch the data of a backend -/
+def ReadOrLock (c : BCmd) : Prop :=
+  (∃ k, c = .get k) ∨ (∃ k, c = .has k) ∨ (∃ lk ttl, c = .setLock lk ttl) ∨ (∃ lk, c = .unlock lk)
+
+theorem readOrLock_of_noData (c : BCmd) (h : c.noData) : ReadOrLock c := by
+  cases c with
+  | get k => exact Or.inl ⟨k, rfl⟩
+  | has k => exact Or.inr (Or.inl ⟨k, rfl⟩)
+  | setLock lk ttl => exact Or.inr (Or.inr (Or.inl ⟨lk, ttl, rfl⟩))
+  | unlock lk => exact Or.inr (Or.inr (Or.inr ⟨lk, rfl⟩))
+  | set k v => exact h.elim
+  | deleteMany ks => exact h.elim
+  | setMany kvs ttl => exact h.elim
+
+/-- **Until the body ends every write is buffered**: whatever the body does — `set` (with or without a ttl, conditional or
+not), `incr`, `delete`, `set_many`, `delete_many`, `expire` — and whatever fails, the only commands that reach a backend
+before `__aexit__` are reads (`get`, `exists`) and `set_lock`s.  In particular `expire` of a key the transaction has not
+written reads the value and buffers it with the new TTL; it does not send `expire` to the store (seeded change C16-8). -/
+theorem body_sends_no_write (cfg : Cfg) (body : List BodyCmd) (w : FWorld) :
+    ∀ ev, ev ∈ (runBody cfg body (entered w)).2.log → ev ∈ w.log ∨ ReadOrLock ev.cmd := by
+  intro ev h
+  rcases (runBody_RBody cfg body (entered w)).2.2 ev h with h' | h'
+  · exact Or.inl h'
+  · exact Or.inr (readOrLock_of_noData _ h')
+
+/-- **A block whose body failed sends no write to any backend at all** — not in the body, not while rolling back: every
+command it logged is a read, a `set_lock` or an `unlock`.  This is "a failure inside the body applies none of the
+transaction's writes" at the level of the command trace; unlike `failed_body_applies_nothing` it does not depend on the
+reading "a failing command has no effect on the backend". -/
+theorem failed_body_sends_no_write (cfg : Cfg) (body : List BodyCmd) (w : FWorld) (h : w.ctx = none)
+    (hb : (runBody cfg body (entered w)).1.isOk = false) :
+    ∀ ev, ev ∈ (runBlock cfg body w).2.log → ev ∈ w.log ∨ ReadOrLock ev.cmd := by
+  intro ev hev
+  rw [runBlock_world cfg body w h, hb] at hev
+  rcases (aexit_exc_RBody cfg _).2.2 ev hev with h1 | h1
+  · rcases (runBody_RBody cfg body (entered w)).2.2 ev h1 with h2 | h2
+    · exact Or.inl h2
+    · exact Or.inr (readOrLock_of_noData _ h2)
+  · exact Or.inr (readOrLock_of_noData _ h1)
+
+/-- **… value AND deadline**: after a failed body every key of every backend has exactly the entry it had before the block
+— the same value and the same deadline (a TTL changed by `expire`, by a `set`/`incr` with a ttl or by a conditional `set`
+inside the failed body is not applied either) — so at every later instant `t` the store shows what it would have shown
+had the block never run. -/
+theorem failed_body_keeps_values_and_deadlines (cfg : Cfg) (body : List BodyCmd) (w : FWorld) (h : w.ctx = none)
+    (hb : (runBody cfg body (entered w)).1.isOk = false) (b k : Nat) :
+    alLookup (runBlock cfg body w).2.data (b, k) = alLookup w.data (b, k) ∧
+    ∀ t, entryView { (runBlock cfg body w).2 with now := t } b k = entryView { w with now := t } b k := by
+  have hd := failed_body_applies_nothing cfg body w h hb
+  refine ⟨by rw [hd], fun t => ?_⟩
+  unfold entryView
+  simp only [hd]
+
+/-- the same for a body in which a backend command was made to fail (the premise of `body_fault_applies_nothing`) -/
+theorem body_fault_keeps_values_and_deadlines (cfg : Cfg) (body : List BodyCmd) (w : FWorld) (h : w.ctx = none)
+    (hf : ∃ i, w.counter ≤ i ∧ i < (runBody cfg body (entered w)).2.counter ∧ cfg.fails i = true) (b k : Nat) :
+    alLookup (runBlock cfg body w).2.data (b, k) = alLookup w.data (b, k) ∧
+    ∀ t, entryView { (runBlock cfg body w).2 with now := t } b k = entryView { w with now := t } b k := by
+  apply failed_body_keeps_values_and_deadlines cfg body w h
   cases hok : (runBody cfg body (entered w)).1.isOk with
   | false => rfl
   | true =>
@@ -242,7 +311,7 @@ def demoCfgB (faults bases : List Nat) (rbAll : Bool) : Cfg :=
   { demoCfg faults with base := failsAt bases, rbAll := rbAll }
 
 /-- two backends: writes on 0 (set, incr, delete) and on 1 (set with a TTL) -/
-def demoBody : List BodyCmd := [.set 0 0 1 none, .set 1 0 2 (some 8), .incr 0 1, .delete 0 2]
+def demoBody : List BodyCmd := [.set 0 0 1 none, .set 1 0 2 (some 8), .incr 0 1 none, .delete 0 2]
 
 def demoWorld : FWorld := { FWorld.init with data := [((0, 1), ⟨5, none⟩), ((0, 2), ⟨7, none⟩)] }
 
@@ -347,6 +416,70 @@ example :
     (match r.1 with | .err (.fault 3 .exception) => true | _ => false) = true ∧
     r.2.locks = [((0, 2), ⟨false, none⟩), ((0, 1), ⟨true, some 4⟩)] ∧
     envRel [(0, 2)] r.2.locks = [((0, 1), ⟨true, some 4⟩)] ∧ r.2.ctx = none := by decide +kernel
+
+/-! #### TTLs are data: `expire`, `incr` with a ttl, conditional `set`; stores with deadlines -/
+
+/-- key 1 of backend 0 lapses at 40, key 2 never -/
+def ttlWorld : FWorld := { FWorld.init with data := [((0, 1), ⟨5, some 40⟩), ((0, 2), ⟨7, none⟩)] }
+
+example : ttlWorld.ctx = none ∧ NoMine ttlWorld := ⟨rfl, fun _ _ h => by simp [ttlWorld, FWorld.init] at h⟩
+
+/-- `expire` of a stored key the transaction has not written, then a `set`: no fault — the lock of key 1 (command 0), the
+READ of its value (command 1: `get`, not `expire`), the lock of key 0; the commit writes the buffered copy with the new TTL
+(`set_many` with expire 8) and the new key; nothing but reads and `set_lock`s before the body ends -/
+example :
+    let r := runBlock (demoCfg []) [.expire 0 1 8, .set 0 0 1 none] ttlWorld
+    (match r.1 with | .ok _ => true | _ => false) = true ∧ r.2.counter = 7 ∧ r.2.locks = [] ∧
+    r.2.data = [((0, 2), ⟨7, none⟩), ((0, 1), ⟨5, some 8⟩), ((0, 0), ⟨1, none⟩)] ∧
+    (⟨1, 0, .get 1, false⟩ : Ev) ∈ r.2.log ∧ (⟨3, 0, .setMany [(1, 5)] (some 8), false⟩ : Ev) ∈ r.2.log := by
+  decide +kernel
+
+/-- the witness of the class of seeded change C16-8: the same body, the `set_lock` of the SECOND command (command 2) fails:
+premise of `body_fault_keeps_values_and_deadlines`; key 1 still lapses at 40 (not at 8), the lock taken for `expire` is
+released, only `set_lock` / `get` / `unlock` were sent -/
+example :
+    (∃ i, ttlWorld.counter ≤ i ∧ i < (runBody (demoCfg [2]) [.expire 0 1 8, .set 0 0 1 none] (entered ttlWorld)).2.counter ∧
+      (demoCfg [2]).fails i = true) ∧
+    (let r := runBlock (demoCfg [2]) [.expire 0 1 8, .set 0 0 1 none] ttlWorld
+     (match r.1 with | .err (.fault 2 .exception) => true | _ => false) = true ∧ r.2.data = ttlWorld.data ∧
+     entryView r.2 0 1 = some ⟨5, some 40⟩ ∧ r.2.locks = [] ∧
+     r.2.log.map (·.cmd) = [.setLock 2 16, .get 1, .setLock 1 16, .unlock 2]) :=
+  ⟨⟨2, by decide +kernel⟩, by decide +kernel⟩
+
+/-- the class of seeded change C16-7 on `expire`: its own read (command 1) fails right after its lock was taken — the
+lock is released by the rollback although nothing was buffered on that backend -/
+example :
+    let r := runBlock (demoCfg [1]) [.expire 0 1 8] ttlWorld
+    (match r.1 with | .err (.fault 1 .exception) => true | _ => false) = true ∧ r.2.locks = [] ∧ r.2.counter = 3 ∧
+    r.2.data = ttlWorld.data ∧ (⟨2, 0, .unlock 2, false⟩ : Ev) ∈ r.2.log := by decide +kernel
+
+/-- … and on a conditional `set` (its `exists`, command 1) and on `incr` with a ttl (its `get`, command 1) -/
+example :
+    (runBlock (demoCfg [1]) [.setIf 0 1 9 none true] ttlWorld).2.locks = [] ∧
+    (⟨1, 0, .has 1, true⟩ : Ev) ∈ (runBlock (demoCfg [1]) [.setIf 0 1 9 none true] ttlWorld).2.log ∧
+    (runBlock (demoCfg [1]) [.incr 0 3 (some 8)] ttlWorld).2.locks = [] ∧
+    (⟨1, 0, .get 3, true⟩ : Ev) ∈ (runBlock (demoCfg [1]) [.incr 0 3 (some 8)] ttlWorld).2.log := by decide +kernel
+
+/-- `expire` in its three other situations: on a key written earlier in the transaction (the buffered entry gets the TTL: no
+backend read), on a missing key (read, nothing buffered), on a key deleted earlier in the transaction (nothing at all);
+then a conditional `set` that is refused (`exist=False` on a buffered key), one that goes through, and a counter created
+with a ttl (the second `incr` keeps the deadline) -/
+example :
+    let body : List BodyCmd := [.set 0 0 1 none, .expire 0 0 4, .expire 0 3 4, .delete 0 2, .expire 0 2 4,
+      .setIf 0 0 9 none false, .setIf 0 1 9 none true, .incr 0 3 (some 8), .incr 0 3 (some 2)]
+    let r := runBlock { demoCfg [] with mode := .fast } body ttlWorld
+    r.2.outs = [.bool true, .unit, .unit, .bool true, .unit, .bool false, .bool true, .int 1, .int 2] ∧
+    r.2.log.map (·.cmd) = [.get 3, .has 1, .get 3, .deleteMany [2], .setMany [(0, 1)] (some 4), .setMany [(1, 9)] none,
+      .setMany [(3, 2)] (some 8)] ∧
+    r.2.data = [((0, 0), ⟨1, some 4⟩), ((0, 1), ⟨9, some 40⟩), ((0, 3), ⟨2, some 8⟩)] := by decide +kernel
+
+/-- time matters: a TTL set by `expire` inside the transaction can run out before the commit (the buffered copy is then
+deleted by the commit), and a failed body leaves the store's own deadline running: at instant 40 key 1 is gone either way -/
+example :
+    (runBlock (demoCfg []) [.expire 0 1 4, .adv 8] ttlWorld).2.data = [((0, 2), ⟨7, none⟩)] ∧
+    (let r := runBlock (demoCfg []) [.expire 0 1 4, .adv 8, .raise] ttlWorld
+     r.2.data = ttlWorld.data ∧ entryView r.2 0 1 = some ⟨5, some 40⟩ ∧ entryView { r.2 with now := 40 } 0 1 = none) := by
+  decide +kernel
 
 /-! #### failures of BaseException kind (`asyncio.CancelledError`: a command cut short by a time limit) -/
 
